@@ -45,6 +45,9 @@ def plan(tier, seed):
                       "reps": 3 if tier == "quick" else 5, "timeout": 3000, "setting": name})
     specs.append({"name": "runs-nocache", "work": "runs", "threads": 4, "parallel": True, "n_cases": min(n_cases, 8), "reps": 2,
                   "env": {"PVMON_NO_FORCE_CACHE": "1"}, "timeout": 3000, "setting": "nocache"})
+    # another scheduler for the same prange loops: numba's built-in workqueue layer instead of OpenMP
+    specs.append({"name": "runs-workqueue", "work": "runs", "threads": 5, "parallel": True, "n_cases": n_cases, "reps": 2,
+                  "env": {"NUMBA_THREADING_LAYER": "workqueue"}, "timeout": 3000, "setting": "wq5"})
     nh = 2 if tier == "quick" else 8
     for i in range(nh):
         specs.append({"name": f"hist-{i}", "work": "hist", "part": i, "n": 12 if tier == "quick" else 75, "threads": [2, 5, 16][i % 3],
@@ -264,5 +267,5 @@ def finish(coverage, tot, tier):
     tot["gates"]["cases_compared_across_processes"] = n_cmp
     tot["gates"]["settings_compared_per_case"] = 0 if min_settings == 99 else min_settings
     coverage["cross_process"] = {"cases": n_cmp, "settings_per_case_min": None if min_settings == 99 else min_settings,
-                                 "settings": [s[0] for s in SETTINGS] + ["nocache"]}
+                                 "settings": [s[0] for s in SETTINGS] + ["nocache", "wq5"]}
     tot["info"].pop("digests", None)
